@@ -75,6 +75,51 @@ Proof.
   intros [H|[H|H]]; try discriminate. destruct r2; try contradiction. eexists. split; [reflexivity|exact H].
 Qed.
 
+(* the same relation without the "push beyond the allocated stack" alternative: what the
+   capacity-free parts of the interpreter (ensureStorage, goTo, advance, backtrack) satisfy, and what
+   the whole step satisfies once the capacity invariant is known (Proofs/VMCapacityProofs.v) *)
+Definition res_rel0 {A} (R : A -> A -> Prop) (r1 r2 : res A) : Prop :=
+  r1 = Err E_StackLimit \/
+  match r1, r2 with
+  | Ok a, Ok b => R a b
+  | Err c, Err c' => c = c'
+  | Crash w, Crash w' => w = w'
+  | Fuel, Fuel => True
+  | _, _ => False
+  end.
+
+Lemma res_rel0_weaken {A} (R : A -> A -> Prop) r1 r2 : res_rel0 R r1 r2 -> res_rel R r1 r2.
+Proof. intros [H|H]; [left; exact H|right; right; exact H]. Qed.
+Lemma res_rel0_ok {A} (R : A -> A -> Prop) a b : R a b -> res_rel0 R (Ok a) (Ok b).
+Proof. intros H. right. exact H. Qed.
+Lemma res_rel0_crash {A} (R : A -> A -> Prop) w : res_rel0 R (Crash w) (Crash w).
+Proof. right. reflexivity. Qed.
+Lemma res_rel0_err {A} (R : A -> A -> Prop) c : res_rel0 R (Err c) (Err c).
+Proof. right. reflexivity. Qed.
+Lemma res_rel0_fuel {A} (R : A -> A -> Prop) : res_rel0 R Fuel Fuel.
+Proof. right. exact I. Qed.
+Lemma res_rel0_limit {A} (R : A -> A -> Prop) r : res_rel0 R (Err E_StackLimit) r.
+Proof. left. reflexivity. Qed.
+
+Lemma res_rel0_bind {A B} (R : A -> A -> Prop) (Q : B -> B -> Prop) r1 r2 k1 k2 :
+  res_rel0 R r1 r2 -> (forall a b, R a b -> res_rel0 Q (k1 a) (k2 b)) ->
+  res_rel0 Q (bind r1 k1) (bind r2 k2).
+Proof.
+  intros [->|H] K.
+  - left. reflexivity.
+  - destruct r1, r2; cbn [bind]; try contradiction.
+    + apply K. exact H.
+    + subst. apply res_rel0_err.
+    + subst. apply res_rel0_crash.
+    + apply res_rel0_fuel.
+Qed.
+
+Lemma res_rel0_ok_inv {A} (R : A -> A -> Prop) a r2 :
+  res_rel0 R (Ok a) r2 -> exists b, r2 = Ok b /\ R a b.
+Proof.
+  intros [H|H]; try discriminate. destruct r2; try contradiction. eexists. split; [reflexivity|exact H].
+Qed.
+
 (* uncapture_to only touches crawl / mcaps: a state-free version *)
 Fixpoint unc_pure (fuel : nat) (cr : list Z) (m : list (list Z)) (target : Z) : res (list Z * list (list Z)) :=
   match fuel with
@@ -116,7 +161,7 @@ Proof.
 Qed.
 
 Lemma sim_ensure s1 s2 :
-  simrel L s1 s2 -> res_rel (simrel L) (ensure_storage p L s1) (ensure_storage p L' s2).
+  simrel L s1 s2 -> res_rel0 (simrel L) (ensure_storage p L s1) (ensure_storage p L' s2).
 Proof.
   destruct s1 as [pc1 md1 tp1 tr1 tc1 st1 sc1 cr1 mc1].
   destruct s2 as [pc2 md2 tp2 tr2 tc2 st2 sc2 cr2 mc2].
@@ -133,51 +178,51 @@ Proof.
                   | _ => destruct b eqn:?
                   end
               end.
-  all: first [ apply res_rel_limit
-             | apply res_rel_ok; unfold simrel, eqv; vm_cbn; repeat split; lia
+  all: first [ apply res_rel0_limit
+             | apply res_rel0_ok; unfold simrel, eqv; vm_cbn; repeat split; lia
              | exfalso; lia ].
 Qed.
 
 Lemma sim_goto s1 s2 a :
-  simrel L s1 s2 -> res_rel (out_rel L) (cont (goto p L s1 a)) (cont (goto p L' s2 a)).
+  simrel L s1 s2 -> res_rel0 (out_rel L) (cont (goto p L s1 a)) (cont (goto p L' s2 a)).
 Proof.
   intros HR. unfold cont, goto.
   assert (Hpc : pc s1 = pc s2) by (destruct HR as [HE _]; unfold eqv in HE; tauto).
   rewrite <- Hpc.
-  apply res_rel_bind with (R := simrel L); [|intros x y Hxy; apply res_rel_ok; exact Hxy].
-  apply res_rel_bind with (R := simrel L).
-  - destruct (a <=? pc s1); [apply sim_ensure; exact HR|apply res_rel_ok; exact HR].
-  - intros x y [HE HT]. destruct (code_at p a); [|apply res_rel_crash].
-    apply res_rel_ok. unfold simrel, eqv in *. vm_cbn. tauto.
+  apply res_rel0_bind with (R := simrel L); [|intros x y Hxy; apply res_rel0_ok; exact Hxy].
+  apply res_rel0_bind with (R := simrel L).
+  - destruct (a <=? pc s1); [apply sim_ensure; exact HR|apply res_rel0_ok; exact HR].
+  - intros x y [HE HT]. destruct (code_at p a); [|apply res_rel0_crash].
+    apply res_rel0_ok. unfold simrel, eqv in *. vm_cbn. tauto.
 Qed.
 
 Lemma sim_adv s1 s2 i :
-  simrel L s1 s2 -> res_rel (out_rel L) (cont (advance p s1 i)) (cont (advance p s2 i)).
+  simrel L s1 s2 -> res_rel0 (out_rel L) (cont (advance p s1 i)) (cont (advance p s2 i)).
 Proof.
   intros HR. unfold cont, advance.
   assert (Hpc : pc s1 = pc s2) by (destruct HR as [HE _]; unfold eqv in HE; tauto).
   rewrite <- Hpc.
-  apply res_rel_bind with (R := simrel L); [|intros x y Hxy; apply res_rel_ok; exact Hxy].
-  destruct (code_at p (pc s1 + i + 1)); [|apply res_rel_crash].
-  apply res_rel_ok. unfold simrel, eqv in *. vm_cbn. tauto.
+  apply res_rel0_bind with (R := simrel L); [|intros x y Hxy; apply res_rel0_ok; exact Hxy].
+  destruct (code_at p (pc s1 + i + 1)); [|apply res_rel0_crash].
+  apply res_rel0_ok. unfold simrel, eqv in *. vm_cbn. tauto.
 Qed.
 
 Lemma sim_brk s1 s2 :
-  simrel L s1 s2 -> res_rel (out_rel L) (brk p L s1) (brk p L' s2).
+  simrel L s1 s2 -> res_rel0 (out_rel L) (brk p L s1) (brk p L' s2).
 Proof.
   intros HR. unfold brk.
-  apply res_rel_bind with (R := simrel L); [|intros x y Hxy; apply res_rel_ok; exact Hxy].
+  apply res_rel0_bind with (R := simrel L); [|intros x y Hxy; apply res_rel0_ok; exact Hxy].
   unfold backtrack.
   destruct HR as [HE HT]. unfold eqv in HE. destruct HE as (Hpc & Hmd & Htp & Htr & Hst & Hsc & Hcr & Hmc).
   rewrite <- Htr, <- Hpc.
-  destruct (track s1) as [|np t] eqn:Et; [apply res_rel_crash|].
+  destruct (track s1) as [|np t] eqn:Et; [apply res_rel0_crash|].
   destruct (if np <? 0 then (- np, Back2Bit) else (np, BackBit)) as [newpos m].
-  destruct (code_at p newpos); [|apply res_rel_crash].
-  apply res_rel_bind with (R := simrel L).
+  destruct (code_at p newpos); [|apply res_rel0_crash].
+  apply res_rel0_bind with (R := simrel L).
   - assert (HR1 : simrel L (set_track s1 t) (set_track s2 t)).
     { unfold simrel, eqv. vm_cbn. tauto. }
-    destruct (newpos <? pc s1); [apply sim_ensure; exact HR1|apply res_rel_ok; exact HR1].
-  - intros x y [HE' HT']. apply res_rel_ok. unfold simrel, eqv in *. vm_cbn. tauto.
+    destruct (newpos <? pc s1); [apply sim_ensure; exact HR1|apply res_rel0_ok; exact HR1].
+  - intros x y [HE' HT']. apply res_rel0_ok. unfold simrel, eqv in *. vm_cbn. tauto.
 Qed.
 
 Ltac vm_cbv :=
@@ -212,9 +257,9 @@ Ltac sim_leaf HT :=
     | apply res_rel_ctrack
     | apply res_rel_fuel
     | apply res_rel_err
-    | apply sim_adv; sim_states HT
-    | apply sim_goto; sim_states HT
-    | apply sim_brk; sim_states HT
+    | apply res_rel0_weaken, sim_adv; sim_states HT
+    | apply res_rel0_weaken, sim_goto; sim_states HT
+    | apply res_rel0_weaken, sim_brk; sim_states HT
     | apply res_rel_ok; cbn [out_rel]; sim_states HT
     | exfalso; lia ].
 
@@ -284,7 +329,7 @@ Proof.
 Qed.
 
 Lemma goto_sim s1 s2 a : simrel L s1 s2 -> res_rel (simrel L) (goto p L s1 a) (goto p L' s2 a).
-Proof. intros HR. apply cont_rel_inv. apply sim_goto. exact HR. Qed.
+Proof. intros HR. apply cont_rel_inv. apply res_rel0_weaken, sim_goto. exact HR. Qed.
 
 Lemma exec_at_sim fuel t :
   res_rel (simrel L) (exec_at e p L fuel t) (exec_at e p L' fuel t).
